@@ -16,3 +16,24 @@ Proof.
   unfold c19_known. generalize c19_findings. intros fs. induction fs as [|[c m] fs IH]; simpl; [reflexivity|].
   destruct (seqb n m); simpl; [discriminate|exact IH].
 Qed.
+
+Lemma c19_validb_sound t c : c19_validb t c = true -> c19_valid t c.
+Proof. destruct c as [n f]. simpl. destruct (find_loc n t) as [l|]; [|discriminate]. intros H. exists l. split; [reflexivity|exact H]. Qed.
+
+Lemma c19_oracle_sound_valid t c : c19_valid t c -> c19_check t c = true -> c19_oracle t c = None.
+Proof. destruct c as [n f]. simpl. intros (l & -> & Hc) _. rewrite Hc. reflexivity. Qed.
+
+Lemma c19_covered_scope t c : c19_check_covered t c = true -> c19_oracle t c = None -> c19_valid t c.
+Proof.
+  unfold c19_check_covered. rewrite andb_true_iff, orb_true_iff. intros [_ [Hv|Ho]] Hn.
+  - apply c19_validb_sound; exact Hv.
+  - rewrite Hn in Ho. discriminate.
+Qed.
+
+(* a valid location case is race free in every conforming, well-formed trace *)
+Lemma c19_valid_no_race t tr o n f :
+  wf tr -> conforms t tr -> c19_valid t (KLoc n f) -> ~ race_at tr (o, n).
+Proof.
+  intros Hwf Hc (l & Hf & Hchk). destruct (find_loc_name _ _ _ Hf) as (Hn & Hin). subst n.
+  apply (lockset_sound_at t tr o l Hwf Hc Hin Hf Hchk).
+Qed.
